@@ -85,7 +85,11 @@ func c04Streams(level int) []Stream {
 func c04Judge(r *core.Run, cs core.Case, s Stream, mutated []byte, site, desc string, mustErr bool, buf ...int) {
 	c04JudgeSrc(r, cs, s, mutated, site, desc, mustErr, 0, buf...)
 	if len(buf) == 0 || buf[0] == 0 {
-		for _, sk := range []int{2, 9} {
+		kinds := []int{2}
+		if strings.HasPrefix(site, "xz edit") || strings.HasPrefix(site, "xz sealed") {
+			kinds = []int{2, 9} // field-level damage also with fills that end off the 4-byte grid
+		}
+		for _, sk := range kinds {
 			c04JudgeSrc(r, cs, s, mutated, site+" ("+sourceKindNames[sk]+")", desc+", source: "+sourceKindNames[sk], mustErr, sk)
 		}
 	}
